@@ -28,3 +28,39 @@ Section Facts.
   Theorem object_unchanged_by_calls s ds : fst (run apply s ds) = s.
   Proof. apply run_state. Qed.
 End Facts.
+
+(* what the sequence test decides: "the probe returns, after every history, what a fresh object returns" is EQUIVALENT to
+   "no reachable hidden state influences any output" - the test's statement is the property, not a consequence of it *)
+Section HiddenFacts.
+  Variables P H D O : Type.
+  Variable out : P -> H -> D -> O.
+  Variable next : P -> H -> D -> H.
+  Variable h0 : P -> H.
+
+  Theorem probe_test_characterises_statelessness p :
+    state_blind out next h0 p <-> forall ds probe, probe_after out next h0 p ds probe = fresh out h0 p probe.
+  Proof. unfold state_blind, probe_after, fresh. split; intros Hb ds d; apply Hb. Qed.
+
+  (* a state-blind object behaves like the stateless model: outputs of any sequence are the fresh outputs *)
+  Fixpoint run_hidden (p : P) (h : H) (ds : list D) : list O :=
+    match ds with [] => [] | d :: t => out p h d :: run_hidden p (next p h d) t end.
+
+  Lemma run_hidden_from p pre : forall ds,
+    state_blind out next h0 p -> run_hidden p (after next h0 p pre) ds = map (fresh out h0 p) ds.
+  Proof.
+    intros ds Hb. revert pre. induction ds as [|d t IH]; intros pre; cbn [run_hidden map]; [reflexivity|].
+    rewrite (Hb pre d). f_equal.
+    replace (next p (after next h0 p pre) d) with (after next h0 p (pre ++ [d])) by (unfold after; rewrite fold_left_app; reflexivity).
+    apply IH.
+  Qed.
+
+  Theorem blind_objects_are_the_stateless_model p ds :
+    state_blind out next h0 p -> run_hidden p (h0 p) ds = map (fresh out h0 p) ds.
+  Proof. intros Hb. exact (run_hidden_from p [] ds Hb). Qed.
+
+  (* conversely one reachable state that changes one output is a failing sequence for the probe test *)
+  Theorem a_state_dependence_is_a_failing_sequence p ds d :
+    out p (after next h0 p ds) d <> out p (h0 p) d ->
+    probe_after out next h0 p ds d <> fresh out h0 p d.
+  Proof. intros Hne. exact Hne. Qed.
+End HiddenFacts.
